@@ -13,7 +13,7 @@ caller buffers have exactly the documented extent; each scenario runs with two h
 the heap empty at the end, outputs independent of fill pattern and stack initialisation, no crash.
 Auxiliary recorder (thorough tier, labelled): the same scenarios in an ASan+UBSan build; each sanitizer report becomes a
 fault event of the same trace specification - the only observer of stack-VLA overruns and language-level UB."""
-import os, json, re
+import os, json, glob, re
 import vlib, nttlib
 from vlib import Check, tlc, workdir, build_driver, validate_trace, sh
 
@@ -74,6 +74,40 @@ def scenarios(seed, tier, avx512):
     return sc
 
 
+FOOT = ('guard-page', 'the call ended with', 'cells changed', 'stray read', 'different garbage', 'was modified', 'before the start', 'in front of an array',
+        'outside the write footprint')
+
+
+def delegated_extents(ck, wd):
+    """The extents clause over the overload families of C16 / C17: their layout checks (exact-extent arenas against guard pages,
+    write footprints, stray-read re-runs, judged by Trace_Layout16 / Trace_Layout17) run as sub-steps in their own work
+    directories; only their findings about accesses are taken over (a wrong value is C16's / C17's business)."""
+    from concurrent.futures import ThreadPoolExecutor
+
+    def one(sub):
+        sev = os.path.join(wd, 'sub_' + sub)
+        os.makedirs(sev, exist_ok=True)
+        env = dict(VERIF_RUNTAG='_in_C18', VERIF_EVID=sev, VERIF_NOMODEL='1')
+        r = sh([os.path.join(vlib.VERIF, 'check'), sub, '--tier', 'quick'], env=env, timeout=2400)
+        return sub, sev, r
+    with ThreadPoolExecutor(max_workers=2) as ex:
+        res = list(ex.map(one, ('C16', 'C17')))
+    for sub, sev, r in res:
+        evf = os.path.join(sev, sub + '.json')
+        if r.returncode not in (0, 1) or not os.path.exists(evf):
+            ck.note('infrastructure: sub-step %s ended rc=%s (%s); its extents are not covered in this run' % (sub, r.returncode, (r.stderr or '')[-200:]))
+            continue
+        ev = json.load(open(evf))
+        cov = ev.get('coverage', {})
+        ck.cov.setdefault('delegated_extents', {})[sub] = dict(calls=cov.get('calls') or cov.get('cases'), traces=cov.get('traces_validated_against_impl'), violations=ev.get('violations'))
+        ck.traces += cov.get('traces_validated_against_impl', 0) or 0
+        ck.states += cov.get('states', 0) or 0
+        for f in sorted(glob.glob(os.path.join(sev, 'replay', sub + '_*.json'))):
+            j = json.load(open(f))
+            if any(k in j.get('desc', '') for k in FOOT):
+                ck.violation('extents of the %s overload families: %s' % (sub, j.get('key', '')[:200]), j.get('desc', '')[:600], dict(delegate=sub, sub_replay=j, cases=[]))
+
+
 def boundary(ln):
     return ('"e":"end"' in ln and '"fill":1' in ln) or '"e":"crash"' in ln or '"e":"fault"' in ln or '"e":"xbuild"' in ln
 
@@ -86,6 +120,16 @@ def run(tier, seed, replay=None):
                        'uninitialised reads are observed through their effect on outputs (two heap fill patterns; zero vs pattern stack initialisation)',
                        'stack VLAs and language-level UB (shifts, alignment, VLA bounds) are observed only by the auxiliary ASan+UBSan recorder of the thorough tier']
     variant = 'avx512' if avx512 else 'avx2'
+    if replay and json.load(open(replay))['case'].get('delegate'):
+        # a finding taken over from the layout checks is replayed by that check
+        j = json.load(open(replay))['case']
+        sub = j['delegate']
+        rp = os.path.join(wd, 'sub_replay.json')
+        json.dump(j['sub_replay'], open(rp, 'w'))
+        r = sh([os.path.join(vlib.VERIF, 'check'), sub, '--tier', 'quick', '--replay', rp], env=dict(VERIF_RUNTAG='_in_C18', VERIF_EVID=os.path.join(wd, 'sub_' + sub)), timeout=2400)
+        if r.returncode == 1:
+            ck.violation('extents of the %s overload families: %s' % (sub, j['sub_replay'].get('key', '')[:200]), j['sub_replay'].get('desc', '')[:600], j)
+        return ck.finish()
     if replay:
         sc = json.load(open(replay))['case']['cases']
     else:
@@ -193,5 +237,7 @@ def run(tier, seed, replay=None):
             continue
         seen.add(cls)
         ck.violation('scenario "%s" -> %s' % (case[:160], what), json.dumps(rec)[:300], dict(cases=[case]))
+    if not replay:
+        delegated_extents(ck, wd)
     ck.cov['scenarios'] = len(sc); ck.cov['rejected_records'] = len(v['rejected'])
     return ck.finish()
